@@ -163,7 +163,7 @@ def r5_condition_typing(ctx, T, rule="C12.R5"):
     for name, et, accept in cases:
         e = T.eng.make(ot.EXPR, "Variable", {1: et})
         item = T.eng.make(ot.POS, "Positioned", {0: e})
-        rs = {tf.shape(x, 1) for x in T.eng.summary(ens, (tf.Ref(item),))}
+        rs = {tf.deref(x)[2] if tf.deref(x)[0] == "tag" else "?" for x in T.eng.summary(ens, (tf.Ref(item),))}
         want = {"Ok"} if accept else {"Err"}
         ctx.decide(rs == want, rule, "%s:accepts:%s" % (rule, name), ens.loc, "accept=%s" % accept,
                    "a condition of type %s: check yields %s (want %s)" % (name, sorted(rs), sorted(want)))
